@@ -66,7 +66,7 @@ Definition of_exn (e : exn) : tree :=
   L [I (match e with IdentifierError => 2 | InvalidRequestError => 3 | CompileError => 4 end)%Z].
 
 Definition run_ddl (d ix cv g env md5 : tree) : tree :=
-  match as_dialect d, as_bool ix, as_conv cv, as_gname g, as_env env, as_str md5 with
+  match as_dialect d, as_bool ix, as_conv cv, as_gname g, as_env env, as_list_of as_N md5 with
   | Some d, Some ix, Some cv, Some g, Some env, Some md5 =>
       match ddl_name (fun _ => md5) d ix cv g env with
       | Ok (Some s) => L [I 0%Z; of_str s]
